@@ -235,7 +235,7 @@ theorem leftFacts : (e : Expr) → PrecOK e → NF e → LeftFacts e
     exact LeftFacts.left (by rw [yield]) ih (fun _ => hp.2) (fun _ => by omega)
   | .index e none _, hp, hn => by
     simp only [PrecOK, precOK, Bool.and_eq_true, decide_eq_true_eq] at hp
-    have ih := leftFacts e hp.1.1 (by simp only [NF, nf, Bool.and_eq_true] at hn; exact hn.1.1)
+    have ih := leftFacts e hp.1.1 (by simp only [NF, nf, Bool.and_eq_true] at hn; exact hn.1)
     exact LeftFacts.left (by rw [yield]) ih (fun _ => hp.1.2) (fun _ => by omega)
   | .index e (some (k, sp)) _, hp, hn => by
     simp only [PrecOK, precOK, Bool.and_eq_true, decide_eq_true_eq] at hp
@@ -473,23 +473,17 @@ theorem posKw?_of {t : Token} {ts : List Token} {sp : Bytes} (ht : proj t = ⟨.
   obtain ⟨hk, hv⟩ := proj_ident ht
   simp [posKw?, hk, posKwOf_eq hk, hv]
 
-theorem posKw?_none {pre rest : List Token} {ys : List Tok'} (hr : Reads pre ys) (hne : ys ≠ [])
-    (h : startsPosKw ys = false) : posKw? (pre ++ rest) = none := by
-  cases ys with
-  | nil => exact absurd rfl hne
-  | cons y ys =>
-    obtain ⟨t, p, rfl, ht, _, _⟩ := hr.cons
-    by_cases hk : tk t.kind = .ident
-    · have : proj t = ⟨.ident, y.v⟩ := by rw [ht]; cases y; simp_all [proj_k ht ▸ hk]; exact (proj_k ht).symm.trans hk
-      rw [List.cons_append, posKw?_of this]
-      have hy : y = ⟨.ident, y.v⟩ := by rw [← this, ht]
-      rw [hy] at h
-      simpa [startsPosKw] using h
-    · simp [posKw?, hk]
+/-- tokens that read the yield of an expression never make `parseIndexSpecifier` take the keyword branch: the first
+token is not a position word, or it is, and then the next token is not `(` (`yield_not_call`) -/
+theorem posKw?_plain {pre rest : List Token} {i : Expr} (hr : Reads pre (yield i)) (hne : yield i ≠ [])
+    (hrest : cur rest ≠ .lparen) : posKw? (pre ++ rest) = none ∨ cur (pre ++ rest).tail ≠ .lparen := by
+  by_cases hc : cur (pre ++ rest) = .ident
+  · exact .inr (not_call_of_yield hr.1 (by intro h; rw [h] at hr; exact hne hr.1.symm) hrest hc)
+  · exact .inl (by simp [posKw?, hc])
 
 theorem cps1_index {e i : Expr} {kw : Option (PosKw × Bytes)} (c : CPS1 e) (ci : Complete i) (hi : LeftFacts i)
     (hkw : match kw with
-      | none => startsPosKw (yield i) = false
+      | none => True
       | some (k, sp) => posKwName sp = some k) : CPS1 (.index e kw i) := by
   intro pre rest res hr _ _ hl
   cases kw with
@@ -504,7 +498,7 @@ theorem cps1_index {e i : Expr} {kw : Option (PosKw × Bytes)} (c : CPS1 e) (ci 
       (fun _ => by simp [proj_T htl]) ?_
     rw [show (tl :: (pi ++ [tr])) ++ rest = tl :: (pi ++ (tr :: rest)) by simp]
     refine ev_selLoop_idx (s := .plain i) (proj_T htl) ?_ (proj_T htr) hl
-    exact ev_idx_plain (posKw?_none hpi hi.ne hkw)
+    exact ev_idx_plain (posKw?_plain hpi hi.ne (by rw [cur_cons, proj_T htr]; decide))
       (ev_parseExpr_of ci hpi (noCont_cons_none (by rw [proj_T htr]; rfl)))
   | some ks =>
     obtain ⟨k, sp⟩ := ks
@@ -846,12 +840,12 @@ theorem complete : (e : Expr) → PrecOK e → NF e → Complete e
   | .index e none i, hp, hn => by
     have hp0 := hp
     simp only [PrecOK, precOK, Bool.and_eq_true, decide_eq_true_eq] at hp
-    have hn' : (NF e ∧ NF i) ∧ startsPosKw (yield i) = false := by
-      simpa only [NF, nf, Bool.and_eq_true, Bool.not_eq_true'] using hn
-    have c := complete e hp.1.1 hn'.1.1
-    have ci := complete i hp.2 hn'.1.2
+    have hn' : NF e ∧ NF i := by
+      simpa only [NF, nf, Bool.and_eq_true] using hn
+    have c := complete e hp.1.1 hn'.1
+    have ci := complete i hp.2 hn'.2
     exact Complete.of_cps1 (by simp [level]) (leftFacts _ hp0 hn)
-      (cps1_index (c.cps1 hp.1.2) ci (leftFacts i hp.2 hn'.1.2) hn'.2)
+      (cps1_index (c.cps1 hp.1.2) ci (leftFacts i hp.2 hn'.2) trivial)
   | .index e (some (k, sp)) i, hp, hn => by
     have hp0 := hp
     simp only [PrecOK, precOK, Bool.and_eq_true, decide_eq_true_eq] at hp
